@@ -146,11 +146,12 @@ def gtom(adj, nr_steps):
         return bm
     else:
         for steps in range(2, nr_steps):
+            prev = bm_aux.copy()  # neighbourhoods at the start of this step
             for i in range(nr_nodes):
                 # neighbors of node i
-                ng_col, = np.where(bm_aux[i, :] == 1)
+                ng_col, = np.where(prev[i, :] == 1)
                 # neighbors of neighbors of node i
-                nng_row, nng_col = np.where(bm_aux[ng_col, :] == 1)
+                nng_row, nng_col = np.where(prev[ng_col, :] == 1)
                 new_ng = np.setdiff1d(nng_col, (i,))
 
                 # neighbors of neighbors of i become considered neighbors of i
